@@ -298,7 +298,7 @@ structure PCtx where
   home : Bytes                   -- `ev_home`
   rxOk : Pat → Bool              -- `regcomp` succeeds
 
-structure PState where
+structure ParseSt where
   rest : Bytes                   -- what the lexer has not read yet
   la : Option Tk := none         -- bison's `yychar` when it holds a token
   tokLine : Nat := 0             -- `yylval.lineno`
@@ -308,11 +308,11 @@ structure PState where
 deriving Repr
 
 inductive PRes (α : Type) where
-  | ok (a : α) (s : PState)
-  | err (line : Nat) (s : PState)      -- first diagnostic
-  | fuel (s : PState)                  -- recursion budget exhausted (shown unreachable)
+  | ok (a : α) (s : ParseSt)
+  | err (line : Nat) (s : ParseSt)      -- first diagnostic
+  | fuel (s : ParseSt)                  -- recursion budget exhausted (shown unreachable)
 
-def PM (α : Type) := PState → PRes α
+def PM (α : Type) := ParseSt → PRes α
 
 @[inline] def PM.pure {α} (a : α) : PM α := fun s => .ok a s
 @[inline] def PM.bind {α β} (m : PM α) (f : α → PM β) : PM β := fun s =>
@@ -337,7 +337,7 @@ def peek (cx : PCtx) (pf sf : Bool) : PM Tk := fun s =>
   | none =>
     let r := lex1 pf sf s.afterMacro s.rest
     let t := Tk.ofToken r.tok
-    let s' : PState := { s with rest := r.rest, la := some t, tokLine := tokLineOf cx.nl s.rest,
+    let s' : ParseSt := { s with rest := r.rest, la := some t, tokLine := tokLineOf cx.nl s.rest,
                                  afterMacro := (match r.tok with | .macro _ => true | _ => false), nlex := s.nlex + 1 }
     if r.errors > 0 then .err (lexErrLine cx.nl s.afterMacro s.rest) s' else .ok t s'
 
